@@ -39,7 +39,7 @@ Definition insert_at (dep : nat) (v : sval) (l : list sval) : list sval := first
 Definition keep_bottom (keep : nat) (l : list sval) : list sval := skipn (length l - keep) l.
 
 Section Exec.
-  Variable pknown : N -> bool.     (* primitives the instance interprets; others are outside the model *)
+  Variable pknown : N -> list sval -> bool.     (* primitive applications the instance interprets; others are outside the model *)
   Variable psem : N -> option (list sval) -> list sval -> option (list sval).
   Variable arrsem : bool -> list sval -> option sval.          (* make_array *)
   Variable unpacksem : nat -> bool -> sval -> option (list sval).
@@ -62,8 +62,8 @@ Section Exec.
     match n with
     | Push v => Ok (set_stk s (v :: stk s))
     | Prim id a o =>
-        if negb (pknown id) then Unk else
         if negb (need a s) then Err false s else
+        if negb (pknown id (firstn a (stk s))) then Unk else
         match psem id (fillctx s) (firstn a (stk s)) with
         | Some outs => if Nat.eqb (length outs) o then Ok (set_stk s (outs ++ skipn a (stk s))) else Unk
         | None => Err false (set_stk s (skipn a (stk s))) end
@@ -267,7 +267,11 @@ Definition zsem (id : N) (_ : option (list sval)) (args : list sval) : option (l
   | 20%N, [SInt a] => Some [SInt (Z.sgn a)]
   | _, _ => None
   end.
-Definition zknown (id : N) : bool := (1 <=? id)%N && (id <=? 20)%N.
+Definition is_int (v : sval) : bool := match v with SInt _ => true | SOpq _ => false end.
+Definition zknown (id : N) (args : list sval) : bool :=
+  (1 <=? id)%N && (id <=? 20)%N &&
+  ((id <=? 4)%N || forallb is_int args ||
+   (N.eqb id 12 && match args with [_; c] => is_int c | _ => false end)).
 Definition no_arr (_ : bool) (_ : list sval) : option sval := None.
 Definition no_unpack (_ : nat) (_ : bool) (_ : sval) : option (list sval) := None.
 Definition no_fmt (_ : list sval) : sval := SOpq 1.
